@@ -60,8 +60,17 @@ def unit_ladder(ctx):
         for y in walk_exprs(x["t"]):
             if y["k"] == "Bin" and y["op"] == "-" and peel(y["r"], methods=False)["k"] == "Lit" and "length" in render(y["l"]):
                 cut = peel(y["r"], methods=False)["v"]
+        # where does the value become an integer?  (`as u64` must be applied to the scaled value)
+        early_cast = False
+        parse_float = any(c["k"] == "MCall" and c["m"] == "parse" and "f64" in c.get("ty", "") for c in walk_exprs(x["t"]))
+        for y in walk_exprs(x["t"]):
+            if y["k"] == "Cast" and y.get("ty") in ("u64", "i64", "usize", "u32", "i32"):
+                inner = peel(y["e"], methods=False)
+                if not (inner["k"] == "Bin" and inner["op"] == "*"):
+                    early_cast = True
+        int_mul = any(c["k"] == "MCall" and c["m"] in ("saturating_mul", "wrapping_mul", "checked_mul") for c in walk_exprs(x["t"]))
         rows.append({"suffix": suffix, "mult": mult, "minlen": minlen, "cut": cut, "node": x,
-                     "lower": tables.is_lowercased(recv, locs)})
+                     "lower": tables.is_lowercased(recv, locs), "early_cast": early_cast or int_mul, "parse_float": parse_float})
     return rows, hir
 
 
@@ -93,6 +102,13 @@ def r1(ctx):
         if not r["lower"]:
             ctx.violation("unit/case/%s" % r["suffix"], ctx.where(PARSE_FILESIZE, r["node"]),
                           "unit `%s` is tested on a string that was not lower-cased" % r["suffix"])
+        if r["suffix"] != "b":
+            okf = r["parse_float"] and not r["early_cast"]
+            ctx.obligation(okf)
+            if not okf:
+                ctx.violation("unit/fraction/%s" % r["suffix"], ctx.where(PARSE_FILESIZE, r["node"]),
+                              "a fractional number with unit `%s` must be scaled as a real number and only then converted to bytes; "
+                              "here the number is %s" % (r["suffix"], "converted to an integer before it is multiplied" if r["early_cast"] else "not parsed as f64"))
     # no unit: plain integer parse of the whole string
     tail = hir.get("expr")
     ok = tail is not None and "parse" in render(tail)
